@@ -107,6 +107,7 @@ pub fn gen_tfb(rng: &mut Rng) -> TfbCase {
                 eintr_pm: *rng.pick(&[0u16, 0, 200]),
                 seed: rng.next_u64(),
                 fail: None,
+                commit_on_flush: false,
             }
         } else {
             SinkFaults::default()
